@@ -1,61 +1,220 @@
 package main
 
 import (
-	"os"
-	"go/token"
 	"go/types"
+	"net/textproto"
+	"strings"
 
 	"golang.org/x/tools/go/ssa"
 )
 
-var bodyType = types.NewNamed(types.NewTypeName(token.NoPos, fakePkg, "Body", nil), types.NewStruct(nil, nil), nil)
+// Support for the SPNEGO HTTP code (C03, C18).
+//
+// Executed from their real code: net/http.Header (a map), http.Error, HandlerFunc.ServeHTTP,
+// Request.Context/WithContext, goidentity's context helpers, strings/base64/hex.
+// Intrinsics (global): textproto.CanonicalMIMEHeaderKey on concrete keys, fmt.Fprintln into an
+// io.Writer, context.Background/WithValue (the real valueCtx type, so that the real Value code runs).
+// Stub sets:
+//   apreqstub  service.VerifyAPREQ returns an arbitrary verdict (what "the service accepts" means is C01)
+//   hoststub   types.GetHostAddress returns an arbitrary address or an error
+// encoding/gob Encode/Decode are an inverse pair (engine-side only: the native replay runs the real gob code).
 
-// Scripted HTTP server: the k-th request gets a symbolic response kind
-//   0 = 200, 1 = 401 with "WWW-Authenticate: Negotiate", 2 = transport error
+const credsT = "github.com/jcmturner/gokrb5/v8/credentials"
+
+// callMethod calls the method `name` of the dynamic type of an interface value.
+func (r *Run) callMethod(fr *Frame, recv *IfaceV, name string, args []Value, site Site) Value {
+	if recv.t == nil {
+		r.mustNot(True, "nil", site, "invoke on nil interface "+name)
+	}
+	ms := r.eng.prog.MethodSets.MethodSet(recv.t)
+	for i := 0; i < ms.Len(); i++ {
+		if ms.At(i).Obj().Name() == name {
+			fn := r.eng.prog.MethodValue(ms.At(i))
+			return r.callFn(fr, fn, append([]Value{recv.v}, args...), site)
+		}
+	}
+	endPath("engine", "method %s not found on %v", name, recv.t)
+	return nil
+}
+
+func (r *Run) structField(t types.Type, sv StructV, name string) *Value {
+	st := t.Underlying().(*types.Struct)
+	for i := 0; i < st.NumFields(); i++ {
+		if st.Field(i).Name() == name {
+			return &sv[i]
+		}
+	}
+	endPath("engine", "no field %s in %v", name, t)
+	return nil
+}
+
 func (e *Engine) registerHTTP() {
 	in := e.intrinsics
-	in["(*net/http.Client).Do"] = func(r *Run, fr *Frame, cc *ssa.CallCommon, a []Value) Value {
-		n := 0
-		if v, ok := r.ghost["http-requests"]; ok {
-			n = v.(int)
+	in["net/textproto.CanonicalMIMEHeaderKey"] = func(r *Run, fr *Frame, cc *ssa.CallCommon, a []Value) Value {
+		s, ok := a[0].(*StrV).Concrete()
+		if !ok {
+			endPath("engine", "symbolic header name")
 		}
-		n++
-		r.ghost["http-requests"] = n
-		if n > 12 {
-			r.mustNot(True, "unwind", lbl("spnego.Client.Do"), "more than 12 HTTP requests for one call: no retry bound")
-		}
-		kind := r.input(8)
-		r.addPC(ULe(kind, BVu(2, 8)))
-		if r.branch(Eq(kind, BVu(2, 8))) {
-			en := r.eng.prog.ImportedPackage("errors").Func("New")
-			return TupleV{&PtrV{}, r.callFn(fr, en, []Value{concStr("transport error")}, lbl("http"))}
-		}
-		rt := r.eng.prog.ImportedPackage("net/http").Type("Response").Type()
-		o := r.newObj(rt, zeroValue(rt), "response")
-		sv := o.val.(StructV)
-		st := rt.Underlying().(*types.Struct)
-		for i := 0; i < st.NumFields(); i++ {
-			switch st.Field(i).Name() {
-			case "StatusCode":
-				sv[i] = Ite(Eq(kind, BVu(1, 8)), BVi(401, 64), BVi(200, 64))
-			case "Body":
-				sv[i] = &IfaceV{t: bodyType, v: BVi(0, 64)}
+		return concStr(textproto.CanonicalMIMEHeaderKey(s))
+	}
+	in["fmt.Fprintln"] = func(r *Run, fr *Frame, cc *ssa.CallCommon, a []Value) Value {
+		var bs []*Term
+		if sl, ok := a[1].(*SliceV); ok {
+			for i := 0; i < sl.len; i++ {
+				if i > 0 {
+					bs = append(bs, BVu(' ', 8))
+				}
+				iv, _ := r.force(&elemsOf(sl)[sl.off+i]).(*IfaceV)
+				if iv != nil {
+					if s, ok := iv.v.(*StrV); ok && s.opaque == nil {
+						bs = append(bs, s.b...)
+						continue
+					}
+				}
+				bs = append(bs, BVu('?', 8))
 			}
 		}
-		r.ghost["last-kind"] = kind
-		return TupleV{&PtrV{obj: o}, &IfaceV{}}
+		bs = append(bs, BVu('\n', 8))
+		return r.callMethod(fr, a[0].(*IfaceV), "Write", []Value{r.bytesToSlice(bs)}, lbl("fmt.Fprintln"))
 	}
-	in["(net/http.Header).Get"] = func(r *Run, fr *Frame, cc *ssa.CallCommon, a []Value) Value {
-		// only the response's WWW-Authenticate header is read by the code under test
-		return concStr("Negotiate")
+	ctxPkg := func(r *Run) *ssa.Package { return r.eng.prog.ImportedPackage("context") }
+	in["context.Background"] = func(r *Run, fr *Frame, cc *ssa.CallCommon, a []Value) Value {
+		t := ctxPkg(r).Type("backgroundCtx").Type()
+		return &IfaceV{t: t, v: zeroValue(t)}
 	}
-	in["(net/http.Header).Set"] = func(r *Run, fr *Frame, cc *ssa.CallCommon, a []Value) Value { return nil }
-	in["(net/http.Header).Del"] = func(r *Run, fr *Frame, cc *ssa.CallCommon, a []Value) Value { return nil }
-	in["gosym.Body.Close"] = func(r *Run, fr *Frame, cc *ssa.CallCommon, a []Value) Value { return &IfaceV{} }
-	if os.Getenv("GOSYM_HTTP") != "" {
-	in["io.Copy"] = func(r *Run, fr *Frame, cc *ssa.CallCommon, a []Value) Value { return TupleV{BVi(0, 64), &IfaceV{}} }
+	in["context.WithValue"] = func(r *Run, fr *Frame, cc *ssa.CallCommon, a []Value) Value {
+		parent := a[0].(*IfaceV)
+		if parent.t == nil {
+			r.mustNot(True, "panic", lbl("context.WithValue"), "cannot create context from nil parent")
+		}
+		if a[1].(*IfaceV).t == nil {
+			r.mustNot(True, "panic", lbl("context.WithValue"), "nil key")
+		}
+		t := ctxPkg(r).Type("valueCtx").Type()
+		o := r.newObj(t, StructV{parent, a[1], a[2]}, "valueCtx")
+		return &IfaceV{t: types.NewPointer(t), v: &PtrV{obj: o}}
 	}
-	in["github.com/jcmturner/gokrb5/v8/spnego.SetSPNEGOHeader"] = func(r *Run, fr *Frame, cc *ssa.CallCommon, a []Value) Value {
+
+	// ---- service.VerifyAPREQ: an arbitrary verdict ----------------------------------------------------
+	vname := "github.com/jcmturner/gokrb5/v8/service.VerifyAPREQ"
+	e.stub("apreqstub", vname, &stubSpec{custom: `
+	zzverif.StubArgs("` + vname + `", APReq, s)
+	var zzok, zzhas bool
+	var zzcreds credentials.Credentials
+	zzerr := zzverif.Stub("` + vname + `", &zzok, &zzhas, &zzcreds)
+	if !zzhas {
+		return zzok, nil, zzerr
+	}
+	return zzok, &zzcreds, zzerr
+`}, func(r *Run, fr *Frame, cc *ssa.CallCommon, a []Value) Value {
+		ct := r.eng.prog.ImportedPackage(credsT).Type("Credentials").Type()
+		boolT := types.Typ[types.Bool]
+		unwrap := func(v Value) Value {
+			if iv, ok := v.(*IfaceV); ok {
+				return iv.v
+			}
+			return v
+		}
+		var ok *Term
+		var creds Value = &PtrV{}
+		fails := false
+		if sc := r.curScript; sc != nil {
+			// scripted: "val" [ok bool, creds *Credentials] | "err" [creds]
+			fails = sc.kind == "err"
+			ok = False
+			if !fails {
+				ok = unwrap(sc.outs[0]).(*Term)
+				creds = unwrap(sc.outs[1])
+			} else if len(sc.outs) > 0 {
+				creds = unwrap(sc.outs[0])
+			}
+		} else {
+			// the documented contract: ok => no error and credentials; an error => not ok
+			k := r.hvar(8)
+			r.addPC(ULe(k, BVu(2, 8)))
+			switch r.concretise(k, "VerifyAPREQ outcome") {
+			case 0:
+				ok = True
+				creds = &PtrV{obj: r.newObj(ct, r.havoc(ct), "creds")}
+			case 1:
+				ok, fails = False, true
+			default:
+				ok = False
+			}
+		}
+		has := False
+		var cv Value = zeroValue(ct)
+		if p := creds.(*PtrV); p.obj != nil {
+			has = True
+			cv = r.load(p, lbl("creds"))
+		}
+		kind := "val"
+		var err Value = &IfaceV{}
+		if fails {
+			kind = "err"
+			err = r.errNew(fr, "stub: AP-REQ not valid")
+		}
+		r.logStub(vname, kind, []Value{ok, has, cv}, []types.Type{boolT, boolT, ct})
+		r.ghostLog("apreq-ok", And(ok, boolTerm(!fails)))
+		return TupleV{ok, creds, err}
+	})
+
+	// ---- types.GetHostAddress: any address or an error ---------------------------------------------------
+	hname := "github.com/jcmturner/gokrb5/v8/types.GetHostAddress"
+	e.stub("hoststub", hname, &stubSpec{outs: []string{"ret0"}, hasErr: true}, func(r *Run, fr *Frame, cc *ssa.CallCommon, a []Value) Value {
+		ht := e.fnByName[hname].Signature.Results().At(0).Type()
+		if r.branch(Eq(r.hvar(1), BVu(1, 1))) {
+			h := r.havoc(ht)
+			r.logStub(hname, "val", []Value{h}, []types.Type{ht})
+			return TupleV{h, &IfaceV{}}
+		}
+		r.logStub(hname, "err", nil, nil)
+		return TupleV{zeroValue(ht), r.errNew(fr, "stub: invalid format of client address")}
+	})
+
+	// ---- encoding/gob (reflection-driven) as an inverse pair -------------------------------------------------
+	// Encode snapshots the value and writes a two-byte handle; Decode of a handle restores the snapshot
+	// into a value of the same type; anything else is a decode error.  The code around it
+	// (Credentials.Marshal / Unmarshal and their field copies) runs from its real code.
+	in["encoding/gob.Register"] = func(r *Run, fr *Frame, cc *ssa.CallCommon, a []Value) Value { return TupleV{} }
+	box := func(r *Run, v Value) Value { return &PtrV{obj: r.newObj(anyType, v, "gob")} }
+	in["encoding/gob.NewEncoder"] = func(r *Run, fr *Frame, cc *ssa.CallCommon, a []Value) Value { return box(r, a[0]) }
+	in["encoding/gob.NewDecoder"] = func(r *Run, fr *Frame, cc *ssa.CallCommon, a []Value) Value { return box(r, a[0]) }
+	in["(*encoding/gob.Encoder).Encode"] = func(r *Run, fr *Frame, cc *ssa.CallCommon, a []Value) Value {
+		w := a[0].(*PtrV).obj.val.(*IfaceV)
+		e := a[1].(*IfaceV)
+		var snap Value = e
+		if pt, ok := e.t.Underlying().(*types.Pointer); ok {
+			snap = &IfaceV{t: pt.Elem(), v: copyVal(r.load(e.v.(*PtrV), lbl("gob.Encode")))}
+		}
+		r.ghostLog("gob-values", snap)
+		n := len(r.ghost["gob-values"].([]Value))
+		r.callMethod(fr, w, "Write", []Value{r.bytesToSlice([]*Term{BVu(0xc5, 8), BVu(uint64(n-1), 8)})}, lbl("gob.Encode"))
 		return &IfaceV{}
 	}
+	in["(*encoding/gob.Decoder).Decode"] = func(r *Run, fr *Frame, cc *ssa.CallCommon, a []Value) Value {
+		rd := a[0].(*PtrV).obj.val.(*IfaceV)
+		e := a[1].(*IfaceV)
+		b, _ := r.callMethod(fr, rd, "Bytes", nil, lbl("gob.Decode")).(*SliceV)
+		l, _ := r.ghost["gob-values"].([]Value)
+		if b != nil && b.len == 2 {
+			bs := sliceBytes(b)
+			if bs[0].IsConst() && bs[1].IsConst() && bs[0].Uint() == 0xc5 && int(bs[1].Uint()) < len(l) {
+				snap := l[bs[1].Uint()].(*IfaceV)
+				if pt, ok := e.t.Underlying().(*types.Pointer); ok && types.Identical(pt.Elem(), snap.t) {
+					r.store(e.v.(*PtrV), copyVal(snap.v), lbl("gob.Decode"))
+					return &IfaceV{}
+				}
+			}
+		}
+		return r.errNew(fr, "gob: not an encoding produced by this run")
+	}
+	_ = strings.HasPrefix
+}
+
+func boolTerm(b bool) *Term {
+	if b {
+		return True
+	}
+	return False
 }
